@@ -9,7 +9,7 @@ import ast
 from .. import astutil as A
 from ..fa import FA
 from ..loader import AnalysisError
-from .cache_model import CacheModel, self_attr, branch_filter, both, safe_expand, value_sources
+from .cache_model import CacheModel, self_attr, branch_filter, both, safe_expand, value_sources, every_path_through
 from .effects import reach_effects, storage_backend_classes, QUERY_METHODS
 from .keys import check_keying
 from . import c06
@@ -266,7 +266,9 @@ def check_delete_enumerates_versions(ck, R):
           "_delete_all_versions_for_key does not enumerate the versions directory on every path (it deletes what the link resolves to, at most): "
           "superseded versions of a key written twice stay behind, the function directory is never pruned and a forgotten function stays listed", fa.where())
     dv = FA(ck, FSDS + ".delete_all_versions")
-    links = [c for c in dv.calls("_delete_non_versioned_link")] + [c for c in dv.calls("_delete_all_versions_for_key")]
+    # what removes the link, by what it does: an unlink of the path the link builder returns, here or in a method of the
+    # data source that does so on every path (whatever that method is called and however the helpers are merged or split)
+    links = _link_removal_sites(ck, dv, SchemePaths(ck))
     # once the key was found to exist, every path to the exit deletes the link (directly or in the per-key helper): the only
     # edges that may by-pass the deletion are those that say "does not exist" (guard clause or nested, either polarity)
     # (a local that only ever holds an existence answer -- `present = a.exists()` ... `if not present: present = b.exists()` -- says the same)
@@ -297,8 +299,14 @@ def _dot_components(fa: FA):
             continue
         e = safe_expand(fa, r.value, r)
         for c in ast.walk(e):
-            if isinstance(c, ast.Call) and A.call_attr(c) in ("joinpath", "join"):
-                comps |= {a.value for a in c.args if isinstance(a, ast.Constant) and isinstance(a.value, str) and a.value.startswith(".")}
+            parts = []
+            if isinstance(c, ast.Call) and A.call_attr(c) in ("joinpath", "join", "Path", "PurePath"):
+                # whole components, `*(a, '.x', b)` spread out
+                for a in c.args:
+                    parts += list(a.value.elts) if isinstance(a, ast.Starred) and isinstance(a.value, (ast.Tuple, ast.List)) else [a]
+            elif isinstance(c, ast.BinOp) and isinstance(c.op, ast.Div):
+                parts = [c.left, c.right]     # pathlib: base / 'dir' / name
+            comps |= {a.value for a in parts if isinstance(a, ast.Constant) and isinstance(a.value, str) and a.value.startswith(".")}
         lits |= {s_ for s_ in A.strings_in(r.value) if s_.startswith(".")}
     return comps or lits
 
@@ -314,6 +322,114 @@ def _version_scan_loops(fa: FA, vlits):
             if any(A.call_attr(c) in ("unlink", "remove") for c in A.calls_in(lp)):
                 loops.append(lp)
     return loops
+
+
+def _mentions_table(fa: FA, e, tb, at=None) -> bool:
+    """does the container expression `e` denote (something taken out of) `self.<tb>`: named directly, through a
+    temporary / alias, or through the variable of a loop over the tables"""
+    if any(self_attr(x, tb) for x in ast.walk(e)):
+        return True
+    try:
+        return bool(fa.nodes(at if at is not None else e)) and ("attr:self." + tb) in fa.deps(e)
+    except AnalysisError:
+        return False
+
+
+def _table_removal_nodes(fa: FA, tb):
+    """CFG nodes of `fa` that remove one key from `self.<tb>` (or from the inner table taken out of it): `del X[k]`,
+    `X.pop(k[, d])`.  A removal that sits in a loop over a non-empty literal sequence (`for t in (self.a, self.b): t.pop(k, None)`)
+    and is passed by every iteration makes the loop as a whole a removal (its head stands for it)."""
+    sites = []
+    for st in fa.stmts(ast.Delete):
+        if any(isinstance(t, ast.Subscript) and _mentions_table(fa, t.value, tb, st) for t in st.targets):
+            sites.append(st)
+    for c in fa.calls("pop"):
+        if c.args and fa.unconditional(c) and _mentions_table(fa, A.call_recv(c), tb, c):
+            sites.append(c)
+    out = []
+    for s in sites:
+        ids = fa.nodes(s)
+        out += ids
+        lp = fa.enclosing(s, ast.For)
+        if lp is None or not ids:
+            continue
+        it = safe_expand(fa, lp.iter, lp)
+        if not (isinstance(it, (ast.Tuple, ast.List)) and it.elts and not any(isinstance(x, ast.Starred) for x in it.elts)):
+            continue
+        for h in fa.nodes(lp):
+            # one iteration: from the head into the body, no way back to the head (or out of the loop) that misses the removal
+            r = fa.cfg.reach([h], removed=ids, edge_ok=lambda s_, d_, l_, h=h: not (s_ == h and l_ == "F"), include_start=False)
+            inside = all(i != h and (fa.cfg.node(i).ast is None and i != fa.cfg.exit or (fa.cfg.node(i).ast is not None and fa.inside(fa.cfg.node(i).ast, lp))) for i in r)
+            if inside:
+                out.append(h)
+    return out
+
+
+def _covering_tables(ck, cls, tb, tables):
+    """Tables U of `cls` such that every method which enters a key into self.<tb> (item store, defaultdict look-up,
+    update / setdefault) also enters one into self.<U> on every path through that site: an entry in <tb> then implies
+    an entry in U.  Decided from the field-mutation sites of the effect summaries."""
+    def base(fld):
+        return fld.split(":")[0].replace("[]", "")
+    def inserts(fi, t):
+        out = []
+        for (owner, fld, n) in ck.cg.field_mut_sites.get(fi.qual, []):
+            if base(fld) != t or fld.endswith(":delitem") or fld.endswith(":assign"):
+                continue
+            if isinstance(n, ast.Call) and A.call_attr(n) not in ("update", "setdefault", "__setitem__"):
+                continue
+            out.append(n)
+        return out
+    cover = []
+    for u in tables:
+        if u == tb:
+            continue
+        ok, seen = True, False
+        for name, m in (cls.methods.items() if cls is not None else []):
+            if name == "__init__":
+                continue
+            mine = inserts(m, tb)
+            if not mine:
+                continue
+            seen = True
+            fa = FA(ck, m)
+            if not every_path_through(fa, fa.nodes_all(mine), fa.nodes_all(inserts(m, u))):
+                ok = False
+        if ok and seen:
+            cover.append(u)
+    return cover
+
+
+def _says_absent(text, positive, tb, others) -> bool:
+    """Does the branch literal (text, polarity) say that the call has no entry in `self.<tb>`?  `k in X` false,
+    `X` falsy (an empty / missing inner table), `X is None` true -- where X is taken out of self.<tb> and out of no other table."""
+    import re
+    if not re.search(r"\bself\.%s\b" % re.escape(tb), text) or any(re.search(r"\bself\.%s\b" % re.escape(o), text) for o in others):
+        return False
+    try:
+        e = ast.parse(text, mode="eval").body
+    except SyntaxError:
+        return False
+    def of_table(x):
+        return any(self_attr(n, tb) for n in ast.walk(x))
+    if isinstance(e, ast.Compare) and len(e.ops) == 1:
+        if isinstance(e.ops[0], ast.In):
+            return (not positive) and of_table(e.comparators[0])
+        if isinstance(e.ops[0], ast.Is) and A.is_none(e.comparators[0]):
+            return positive and of_table(e.left)
+        return False
+    if isinstance(e, (ast.Name, ast.Attribute, ast.Subscript)) or (isinstance(e, ast.Call) and A.call_attr(e) == "get"):
+        return (not positive) and of_table(e)
+    return False
+
+
+def _bypass_site(fa: FA, removed, edge_ok):
+    """the last statement of a witness path entry -> exit that avoids `removed` (for the report), or None"""
+    p = fa.cfg.path(fa.cfg.entry, fa.cfg.exit, removed=removed, edge_ok=edge_ok)
+    for i in reversed(p or []):
+        if fa.cfg.node(i).ast is not None:
+            return fa.cfg.node(i).ast
+    return None
 
 
 def check_forget_scope(ck, cm: CacheModel):
@@ -449,6 +565,24 @@ def check_forget_scope(ck, cm: CacheModel):
                 found.add(tb)
     ck.ob(R, fc.key(None, "tables"), found == set(tables), "forget_call removes from mementos, result and metadata" if found == set(tables) else
           "forget_call does not remove from %s" % sorted(set(tables) - found), fc.where())
+    # ... and from each of them on EVERY path: the three tables are filled independently (custom metadata can be written
+    # for a call that has no memento, a result is stored before its memento), so what one table holds says nothing about
+    # the others.  A way to the normal exit may by-pass the removal from table T only on a branch edge that says the
+    # call's entry is absent from T itself.
+    for tb in tables:
+        if tb not in found:
+            continue
+        rem = _table_removal_nodes(fc, tb)
+        # a table U "covers" T when every method that enters a key into T enters it into U on the same paths: then a call
+        # absent from U is absent from T as well, and such a test excuses the by-pass too
+        cover = _covering_tables(ck, fc.fi.cls, tb, tables)
+        others = [o for o in tables if o != tb and o not in cover]
+        absent = branch_filter(fc, lambda t, p, tb=tb, others=others, cover=cover: any(_says_absent(t, p, x, others) for x in [tb] + cover))
+        okp = bool(rem) and fc.cfg.exit not in fc.cfg.reach([fc.cfg.entry], removed=rem, edge_ok=absent)
+        ck.ob(R, fc.key(None, "every-path:" + tb), okp, "forget_call removes the call's entry from self.%s on every path that finds one" % tb if okp else
+              "forget_call can finish without removing the call's entry from self.%s (the by-pass is not conditioned on that table): "
+              "what is left there outlives the forget and is attached to the call again when it is memoized later; the filesystem "
+              "backend removes everything under the call's file prefix" % tb, fc.where(_bypass_site(fc, rem, absent)))
     fe = FA(ck, MEMBACK + ".forget_everything")
     cl = set()
     for c in fe.calls("clear"):
@@ -928,6 +1062,324 @@ def check_path_scheme(ck):
           "a listing walks into %r: version objects appear as keys" % vlit, ls.where())
     check_escape_inverse(ck, R)
     check_strip_is_not_prefix_removal(ck, R)
+    check_created_paths(ck, R)
+
+
+# ---- what the filesystem data source creates is what its deleter removes --------------------------------------------
+LINK_BUILDER = "_get_non_versioned_link_path"
+SCHEME_BUILDERS = (LINK_BUILDER, "_get_path_versioned")
+_TEMP_MAKERS = ("mkstemp", "mkdtemp", "NamedTemporaryFile")
+_TWO_PATH_FUNCS = {"os.replace", "os.rename", "os.renames", "os.link", "os.symlink", "shutil.move", "shutil.copy", "shutil.copy2", "shutil.copyfile"}
+_MOVE_FUNCS = {"os.replace", "os.rename", "os.renames", "shutil.move"}
+_UNLINK_FUNCS = {"os.unlink", "os.remove", "os.rmdir", "shutil.rmtree"}
+_OS_ERRORS = ("OSError", "IOError", "EnvironmentError", "Exception", "BaseException")
+
+
+def _strip_path_wrappers(e):
+    """str(P) / Path(P) / os.fspath(P) / P.resolve() / P.absolute() -> P"""
+    while True:
+        if isinstance(e, ast.Call) and not e.keywords and len(e.args) == 1 and A.call_attr(e) in ("str", "Path", "PurePath", "fspath", "fsencode"):
+            e = e.args[0]
+        elif isinstance(e, ast.Call) and not e.args and not e.keywords and A.call_attr(e) in ("resolve", "absolute") and isinstance(e.func, ast.Attribute):
+            e = e.func.value
+        else:
+            return e
+
+
+def _canon_strings(e):
+    """every string-building sub-expression (format / f-string / % / +) as one left-associated concatenation"""
+    class T(ast.NodeTransformer):
+        def visit(self, n):
+            if isinstance(n, (ast.JoinedStr, ast.BinOp, ast.Call)):
+                parts = A.str_parts(n)
+                if parts and len(parts) > 1 and not all(k == "expr" and v is n for (k, v) in parts):
+                    out = None
+                    for (k, v) in parts:
+                        node = ast.Constant(value=v) if k == "lit" else (self.visit(v) if v is not n else v)
+                        out = node if out is None else ast.BinOp(left=out, op=ast.Add(), right=node)
+                    return out
+            return self.generic_visit(n)
+    import copy
+    return T().visit(copy.deepcopy(e))
+
+
+def _inline_own_builders(ck, cls, e, depth=0):
+    """calls of single-return methods of `cls` (self.m(..) / cls.m(..) / Class.m(..)) replaced by what they return"""
+    import copy
+
+    class T(ast.NodeTransformer):
+        def visit_Call(self, n_):
+            self.generic_visit(n_)
+            f = n_.func
+            if depth < 4 and isinstance(f, ast.Attribute) and isinstance(f.value, ast.Name) and f.value.id in ("self", "cls", cls.name) and f.attr in cls.methods:
+                m = cls.methods[f.attr]
+                rets = [s_ for s_ in A.all_stmts(m.node) if isinstance(s_, ast.Return) and s_.value is not None]
+                if len(rets) == 1 and not any(isinstance(x, (ast.Yield, ast.YieldFrom)) for x in A.walk_body(m.node)):
+                    try:
+                        body = FA(ck, m).expand(rets[0].value)
+                    except AnalysisError:
+                        return n_
+                    bound = _bind(n_, m.params)
+                    if set(p_ for p_ in m.params if p_ != "self") - set(bound):
+                        return n_
+
+                    class S(ast.NodeTransformer):
+                        def visit_Name(self, x_):
+                            return copy.deepcopy(bound[x_.id]) if x_.id in bound and isinstance(x_.ctx, ast.Load) else x_
+
+                    return _inline_own_builders(ck, cls, S().visit(body), depth + 1)
+            return n_
+
+    return T().visit(copy.deepcopy(e))
+
+
+def _unify(t, e, holes, bind) -> bool:
+    """does expression `e` instantiate template `t` (Names in `holes` stand for any sub-expression, consistently)?"""
+    if isinstance(t, ast.Name) and t.id in holes:
+        txt = A.norm(e)
+        if t.id in bind:
+            return bind[t.id] == txt
+        bind[t.id] = txt
+        return True
+    if type(t) is not type(e):
+        return False
+    for f in t._fields:
+        a, b = getattr(t, f, None), getattr(e, f, None)
+        if isinstance(a, list):
+            if not isinstance(b, list) or len(a) != len(b):
+                return False
+            for x, y in zip(a, b):
+                if isinstance(x, ast.AST):
+                    if not isinstance(y, ast.AST) or not _unify(x, y, holes, bind):
+                        return False
+                elif x != y:
+                    return False
+        elif isinstance(a, ast.AST):
+            if not isinstance(b, ast.AST) or not _unify(a, b, holes, bind):
+                return False
+        elif f not in ("kind", "type_comment") and a != b:
+            return False
+    return True
+
+
+class SchemePaths:
+    """The paths under which the filesystem data source keeps a key: its link and its version objects (and the
+    metadata beside them).  These are what `delete_all_versions` / the version scan remove.  A path expression is a
+    scheme path when it is the result of one of the two builders, or spells out what a builder returns."""
+
+    def __init__(self, ck):
+        self.ck = ck
+        self.cls = ck.repo.cls(FSDS)
+        self.templates = []
+        for b in SCHEME_BUILDERS:
+            m = self.cls.methods.get(b)
+            if m is None:
+                continue
+            fa = FA(ck, m)
+            holes = set(p_ for p_ in m.params if p_ != "self")
+            for r in fa.returns():
+                if r.value is None:
+                    continue
+                body = safe_expand(fa, r.value, r)
+                self.templates.append((_canon_strings(_inline_own_builders(ck, self.cls, body)), holes, b))
+        ck.need(self.templates, "%s: the link / version path builders are gone" % FSDS)
+
+    def is_scheme(self, e, which=None) -> bool:
+        """is `e` (locals already expanded) a scheme path -- of the builder `which` when given"""
+        names = SCHEME_BUILDERS if which is None else (which,)
+        e = _strip_path_wrappers(e)
+        if isinstance(e, ast.Call) and A.call_attr(e) in names and isinstance(e.func, ast.Attribute) \
+                and isinstance(e.func.value, ast.Name) and e.func.value.id in ("self", "cls", self.cls.name):
+            return True
+        x = _canon_strings(_inline_own_builders(self.ck, self.cls, e))
+        return any(_unify(t, x, holes, {}) for (t, holes, b) in self.templates if b in names)
+
+
+def _link_removal_sites(ck, fa: FA, sp, _seen=()):
+    """Calls in `fa` that remove a key's link file: `os.unlink / os.remove(P)`, `P.unlink()` with P the path the link
+    builder returns (through temporaries / wrappers), or a call of a method of the data source that removes the link on
+    every one of its own paths (see _always_removes_link)."""
+    out = []
+    cls = sp.cls
+    for k in fa.calls():
+        d, nm = A.call_dotted(k) or "", A.call_attr(k)
+        if d in ("os.unlink", "os.remove") and k.args and sp.is_scheme(safe_expand(fa, k.args[0], k), LINK_BUILDER):
+            out.append(k)
+        elif nm == "unlink" and isinstance(k.func, ast.Attribute) and not d.startswith("os.") and sp.is_scheme(safe_expand(fa, k.func.value, k), LINK_BUILDER):
+            out.append(k)
+        elif isinstance(k.func, ast.Attribute) and isinstance(k.func.value, ast.Name) and k.func.value.id in ("self", "cls", cls.name) and nm in cls.methods:
+            m = cls.methods[nm]
+            if m.qual not in _seen and m.qual != fa.qual and _always_removes_link(ck, m, sp, tuple(_seen) + (fa.qual,)):
+                out.append(k)
+    return out
+
+
+def _always_removes_link(ck, m, sp, _seen=()) -> bool:
+    """Does every normal path through method `m` remove the link, except those that found no link file
+    (`isfile` / `exists` false -- guard clause or nested, either polarity)?"""
+    memo = ck.__dict__.setdefault("_c05_link_removers", {})
+    if m.qual in memo:
+        return memo[m.qual]
+    fa = FA(ck, m)
+    sites = _link_removal_sites(ck, fa, sp, _seen)
+    nolink = branch_filter(fa, lambda t, p: (not p) and any(x in t for x in ("isfile(", "is_file()", "exists(", ".exists()")))
+    ok = bool(sites) and fa.cfg.exit not in fa.cfg.reach([fa.cfg.entry], removed=fa.nodes_all(sites), edge_ok=nolink)
+    if len(_seen) <= 1:
+        memo[m.qual] = ok
+    return ok
+
+
+def _created_paths(fa: FA):
+    """File-creating sites of `fa`: [(call, created path expression or None for a scratch maker, kind)]."""
+    from ..callgraph import _open_mode_writes
+    out = []
+    for c in fa.calls():
+        nm, d = A.call_attr(c), A.call_dotted(c) or ""
+        if nm == "open" and d != "os.open":
+            if _open_mode_writes(c):
+                if isinstance(c.func, ast.Name) or d in ("io.open", "codecs.open"):
+                    p_ = A.arg_or_kw(c, 0, "file")
+                else:
+                    p_ = A.call_recv(c)
+                if p_ is not None:
+                    out.append((c, p_, "opens for writing"))
+        elif d == "os.open":
+            if c.args:
+                out.append((c, c.args[0], "opens"))
+        elif nm in ("write_text", "write_bytes", "touch") and isinstance(c.func, ast.Attribute):
+            out.append((c, c.func.value, "writes"))
+        elif d in _TWO_PATH_FUNCS and len(c.args) >= 2:
+            out.append((c, c.args[1], "moves / copies a file to"))
+        elif nm in ("rename", "replace", "symlink_to", "link_to", "hardlink_to") and isinstance(c.func, ast.Attribute) and len(c.args) == 1 and not c.keywords \
+                and not d.startswith(("os.", "shutil.")):
+            # pathlib: P.rename(target) / P.replace(target); str.replace takes two arguments
+            out.append((c, c.args[0], "moves a file to"))
+        elif nm in _TEMP_MAKERS and A.kwarg(c, "dir") is not None:
+            if nm == "NamedTemporaryFile":
+                dl = A.kwarg(c, "delete")
+                if not (isinstance(dl, ast.Constant) and dl.value is False):
+                    continue   # removed when it is closed
+            out.append((c, None, "creates a scratch file"))
+    return out
+
+
+def check_created_paths(ck, R):
+    """Everything the filesystem data source leaves under the store is named by the key scheme -- the key's link or a
+    version object under the versions directory -- because those are the only names the deleter (and hence forget)
+    removes and the listings hide; any other file in a function's directory keeps that directory from ever being
+    pruned, so the function stays listed with no live entry.  A scratch file (created under another name) is
+    therefore either moved onto a scheme path or unlinked on EVERY way out of the method, failures included: the
+    question is asked on the CFG with exceptional edges."""
+    sp = SchemePaths(ck)
+    cls = sp.cls
+    n_sites = 0
+    for name, m in cls.methods.items():
+        fa = FA(ck, m, exc_mode="all")
+        sites = _created_paths(fa)
+        if not sites:
+            continue
+        cfg = fa.cfg
+
+        def ref_text(e, at):
+            return A.norm(_strip_path_wrappers(safe_expand(fa, e, at)))
+
+        for (c, p_, what) in sites:
+            n_sites += 1
+            if p_ is not None:
+                pe = safe_expand(fa, p_, c)
+                if sp.is_scheme(pe):
+                    ck.ob(R, fa.key(c, "created-path-in-scheme"), True, "%s the key's link / version object" % what, fa.where(c))
+                    continue
+                me = ref_text(p_, c)
+            else:
+                me = None
+            maker = A.call_attr(c) if p_ is None else None
+
+            def refers(e, at):
+                """does `e` (an argument of a later call) name the scratch file created at `c`?"""
+                if e is None:
+                    return False
+                if me is not None and ref_text(e, at) == me:
+                    return True
+                if maker is not None:
+                    try:
+                        return bool(fa.nodes(at)) and ("call:" + maker) in fa.deps(e)
+                    except AnalysisError:
+                        return False
+                return False
+
+            unlinks, moves = [], []
+            for k in fa.calls():
+                d = A.call_dotted(k) or ""
+                nm = A.call_attr(k)
+                if d in _UNLINK_FUNCS and k.args and refers(k.args[0], k):
+                    unlinks.append(k)
+                elif nm in ("unlink", "rmdir") and isinstance(k.func, ast.Attribute) and not d.startswith("os.") and refers(k.func.value, k):
+                    unlinks.append(k)
+                elif d in _MOVE_FUNCS and len(k.args) >= 2 and refers(k.args[0], k) and sp.is_scheme(safe_expand(fa, k.args[1], k)):
+                    moves.append(k)
+                elif nm in ("rename", "replace") and isinstance(k.func, ast.Attribute) and len(k.args) == 1 and not d.startswith(("os.", "shutil.")) \
+                        and refers(k.func.value, k) and sp.is_scheme(safe_expand(fa, k.args[0], k)):
+                    moves.append(k)
+            starts = fa.nodes(c)
+            un, mv = set(fa.nodes_all(unlinks)), set(fa.nodes_all(moves)) - set(starts)
+            gone = branch_filter(fa, lambda t, p: (not p) and ("exists(" in t or "isfile(" in t or "is_file(" in t))
+            contained = _os_error_contained(fa)
+
+            def edge_ok(s_, d_, l_):
+                if s_ in starts and l_ == "exc":
+                    return False    # the creation itself failed: nothing was created
+                if s_ in mv and l_ != "exc":
+                    return False    # moved onto its scheme path: disposed of
+                if l_ == "exc" and cfg.node(s_).kind == "test" and cfg.node(s_).ast is not None and \
+                        all(A.call_attr(k_) in ("exists", "lexists", "isfile", "is_file") for k_ in A.calls_in(cfg.node(s_).ast)):
+                    return False    # os.path.exists & co. answer False instead of raising
+                return gone(s_, d_, l_) and contained(s_, d_, l_)
+
+            r = cfg.reach(starts, removed=un, edge_ok=edge_ok, include_start=False) if starts else set()
+            leaks = [x for x in (cfg.exit, cfg.raise_exit) if x in r]
+            ok = bool(starts) and not leaks
+            how = "returns" if cfg.exit in leaks else "fails (an I/O error while it is written or moved into place)"
+            ck.ob(R, fa.key(c, "created-path-in-scheme"), ok,
+                  "the scratch file is moved onto the key's link / version path or unlinked on every way out" if ok else
+                  "%s %s `%s`, which is neither the key's link nor a version object, and can leave it behind when the method %s: the deleter "
+                  "removes links and version objects only and forget_call selects by the call's file prefix, so the stray file keeps the function's "
+                  "directory from being pruned and the function stays listed after all of its calls were forgotten"
+                  % (m.name, what, A.short(p_ if p_ is not None else c, 60), how), fa.where(c))
+    ck.ob(R, "%s::created-paths::scan" % FSDS, n_sites >= 2, "%d file-creating sites in the filesystem data source" % n_sites if n_sites >= 2 else
+          "the filesystem data source creates fewer files than its link and its version object (%d sites found)" % n_sites, A.loc(cls, cls.node))
+
+
+def _os_error_contained(fa: FA):
+    """edge_ok: an I/O failure raised inside the body of a `try` that has a handler for OSError (or broader) goes to the
+    handlers of that try, not past them (the CFG sends an exception to every handler AND outward unless the handler is
+    `except Exception` / bare)."""
+    cfg = fa.cfg
+
+    def broad(h):
+        if h.type is None:
+            return True
+        ts = h.type.elts if isinstance(h.type, ast.Tuple) else [h.type]
+        return any((A.dotted(t) or "").split(".")[-1] in _OS_ERRORS for t in ts)
+
+    tries = [t for t in ast.walk(fa.node) if isinstance(t, ast.Try) and any(broad(h) for h in t.handlers)]
+
+    def edge_ok(s, d, l):
+        if l != "exc":
+            return True
+        sa_ = cfg.node(s).ast
+        if sa_ is None or sa_ not in fa.pm and not isinstance(sa_, ast.stmt):
+            return True
+        for t in tries:
+            if any(fa.inside(sa_, b) for b in t.body):
+                da = cfg.node(d).ast
+                if da is None:
+                    return False
+                if da in fa.pm and not fa.inside(da, t):
+                    return False
+        return True
+
+    return edge_ok
 
 
 def _walkers(ck, ls: FA):
